@@ -139,9 +139,6 @@ fn drive() {
                     "perfect_right_child" => show(catch_unwind(|| perfect_right_child(a[0]))),
                     "complete_root" => show(catch_unwind(|| complete_root(a[0]))),
                     "complete_parent" => show(catch_unwind(|| complete_parent(a[0], a[1]))),
-                    "checked_complete_parent" => {
-                        show(catch_unwind(|| checked_complete_parent(a[0], a[1])))
-                    }
                     "complete_right_child" => show(catch_unwind(|| complete_right_child(a[0], a[1]))),
                     "complete_parent_and_sibling" => {
                         show(catch_unwind(|| complete_parent_and_sibling(a[0], a[1])))
